@@ -214,3 +214,59 @@ def config_wiring(cx):
         names = st["rv"]["fields"]
         v = a.expr_operand(st["rv"]["ops"][names.index("max_apply_unpersisted_log_limit")], (bi, si))
         cx.check(is_f(v, "Config.max_apply_unpersisted_log_limit"), "wire:apply-unpersisted", "RaftLog.max_apply_unpersisted_log_limit := config value (found %s)" % show(v))
+
+
+@obligation("LOGGUARD.term_queries", ["C14", "C05", "C03", "C01"], floor=2, kind="return shape",
+            why="match_term answering true for an index whose term cannot be read accepts an append without a real prefix match; commit_info advertising anything but (committed, term(committed)) lets a vote carry an uncommitted index as committed")
+def term_queries(cx):
+    from ..idioms import closure_returns
+    # match_term(idx, term) == (term(idx) == Ok(term)); an unreadable term is NOT a match
+    f = cx.fn("RaftLog::match_term")
+    rets = cx.pg(f).returns()
+    ok = False
+    shown = "; ".join(show(v)[:120] for _, v, _ in rets)
+    if len(rets) == 1 and not rets[0][0]:
+        v = rets[0][1]
+        if v[0] == "call" and v[1].endswith("::unwrap_or") and v[2][1] == ("bool", False):
+            mp = v[2][0]
+            if mp[0] == "call" and mp[1].endswith("::map") and mp[2][0][0] == "call" and mp[2][0][1].endswith("RaftLog::term") and mp[2][0][2][1][0] == "param" and mp[2][1][0] == "closure":
+                caps = dict(mp[2][1][2])
+                cr = closure_returns(cx.prog, mp[2][1][1])
+                if cr and len(cr) == 1:
+                    r = cr[0][1]
+                    if r[0] == "bin" and r[1] == "Eq":
+                        xs = r[2:4]
+                        ok = any(x[0] == "param" for x in xs) and any(x[0] == "upvar" and caps.get(x[1], ("?",))[0] == "param" for x in xs)
+        if v[0] == "call" and (v[1].endswith("::is_ok_and") or v[1].endswith("::is_some_and")):
+            inner = v[2][0]
+            if inner[0] == "call" and (inner[1].endswith("RaftLog::term") or inner[1].endswith("::ok")) and v[2][1][0] == "closure":
+                caps = dict(v[2][1][2])
+                cr = closure_returns(cx.prog, v[2][1][1])
+                if cr and len(cr) == 1 and cr[0][1][0] == "bin" and cr[0][1][1] == "Eq":
+                    xs = cr[0][1][2:4]
+                    ok = any(x[0] == "param" for x in xs) and any(x[0] == "upvar" and caps.get(x[1], ("?",))[0] == "param" for x in xs)
+    else:
+        # match form: Ok(t) => t == term, Err(_) => false
+        okp = bool(rets)
+        for lits, v, _ in rets:
+            is_ok = any(l[0] == "in" and l[2] == frozenset(["Ok"]) and l[1][0] == "call" and l[1][1].endswith("RaftLog::term") for l in lits)
+            is_err = any(l[0] == "in" and l[2] == frozenset(["Err"]) and l[1][0] == "call" and l[1][1].endswith("RaftLog::term") for l in lits)
+            if is_err:
+                okp = okp and v == ("bool", False)
+            elif is_ok:
+                okp = okp and ((v[0] == "bin" and v[1] == "Eq" and any(x[0] == "param" for x in v[2:4]) and any(x[0] == "vfield" for x in v[2:4])) or v in (("bool", True), ("bool", False)) and any(l[0] == "is" and l[1][0] == "bin" and l[1][1] == "Eq" and (l[2] is (v == ("bool", True))) for l in lits))
+            else:
+                okp = False
+        ok = okp
+    cx.check(ok, "match_term", "match_term(idx, term) is true exactly when term(idx) is readable and equals term (found %s)" % shown)
+    # commit_info() == (committed, term(committed))
+    f = cx.fn("RaftLog::commit_info")
+    rets = cx.pg(f).returns()
+    ok = bool(rets)
+    for lits, v, _ in rets:
+        okv = v[0] == "tuple" and len(v[1]) == 2 and is_f(v[1][0], "RaftLog.committed")
+        if okv:
+            t = v[1][1]
+            okv = any(x[0] == "call" and x[1].endswith("RaftLog::term") and is_f(x[2][1], "RaftLog.committed") for x in walk(t)) and t[0] in ("tfield", "vfield", "call")
+        ok = ok and okv
+    cx.check(ok, "commit_info", "commit_info() returns (committed, term(committed)) (found %s)" % "; ".join(show(v)[:100] for _, v, _ in rets))
